@@ -287,7 +287,13 @@ def oracles (prev s : St) (impl : List (String × String)) (prevDials : Nat := 0
       else [])
   -- C05: a restart from the resume data and disk as they are now must not treat unwritten pieces as held
   let c05 := if get "crash" ≠ "" && get "crash" ≠ "ok" then [s!"C05 restart-claims-more-than-disk crash={get "crash"}"] else []
-  c01a ++ c01b ++ c01c ++ c04 ++ c10 ++ c17 ++ c19 ++ c05
+  -- C13 (progress, safety form): a free metadata-download slot and an eligible peer that is not used
+  let c13 :=
+    if !s.info && s.status = .dlmeta && (s.idls.filter (fun d => !d.snub)).length < s.parMeta then
+      (s.peers.filter fun p => p.extHS && p.extMeta && p.extSize ≠ 0 && p.extSize ≤ s.maxMeta && !(s.idls.any (·.k = p.k))).map
+        fun p => s!"C13 idle-metadata-source peer={p.k}"
+    else []
+  c01a ++ c01b ++ c01c ++ c04 ++ c10 ++ c17 ++ c19 ++ c05 ++ c13
 
 /-- C04: after the final phase (restart + honest seed answering every request) the torrent must be
 complete with correct files. -/
